@@ -27,13 +27,25 @@ HELPERS = HERE       # where the helper crates `common` and `acc_common` live
 # Rust text
 
 
-def choice_macro_args(n):
-    parts = [f"(T{k}, _{k}, {k})," for k in range(n - 1)]
-    return f"Choice{n}, {n}, " + " ".join(parts) + f" ; (T{n - 1}, _{n - 1}, {n - 1})"
+def choice_body_args(n):
+    return f"{n}, " + " ".join(f"(_{k}, {k})," for k in range(n - 1)) + f" ; (_{n - 1}, {n - 1})"
 
 
-def seq_macro_args(n):
-    return f"Seq{n}, {n}, " + " ".join(f"(T{k}, {k})," for k in range(n))
+def seq_body_args(n):
+    return f"{n}, " + " ".join(f"{k}," for k in range(n))
+
+
+def custom_rule_impl(path, name, what, n):
+    """AccShow for a (Both, boxed) rule struct whose content is a ChoiceN / SeqN of an arity that the tree under
+    test may provide in the library or expand in the generated module: the content is rendered through its
+    public accessor API by a macro that needs the arity only; no trait impl on the ChoiceN / SeqN type."""
+    mac = "acc_choice_body" if what == "choice" else "acc_seq_body"
+    args = choice_body_args(n) if what == "choice" else seq_body_args(n)
+    return (f"    impl<'i, const INH: usize> AccShow for {path}<'i, INH> {{ fn acc(&self, out: &mut String) {{\n"
+            f"        use std::fmt::Write as _;\n"
+            f"        let _ = write!(out, \"(rule {name} B {{}} {{}} \", self.span.start(), self.span.end());\n"
+            f"        acc_common::{mac}!(&*self.content, out, {args});\n"
+            f"        out.push(')');\n    }} }}")
 
 
 EMIT_OF_KIND = {"normal": "Both", "silent": "Expression", "atomic": "Span", "compound": "Both", "nonatomic": "Both"}
@@ -89,17 +101,14 @@ def derived_code(g):
     gid = g["gid"]
     code = [fill(MOD_T, GID=gid, TEXT=g["text"])]
     impls = [f"mod acc_{gid} {{", f"    use super::t_{gid} as g;", "    use g::generics;", "    use acc_common::AccShow;"]
-    for n in g.get("local_choices", []):
-        impls.append(f"    use g::generics::Choice{n};")
-        impls.append(f"    acc_common::acc_choice!({choice_macro_args(n)});")
-    for n in g.get("local_seqs", []):
-        impls.append(f"    use g::generics::Seq{n};")
-        impls.append(f"    acc_common::acc_seq!({seq_macro_args(n)});")
     impls.append(rule_impl("g::rules::EOI", "EOI", "Both"))
     fns, arms, paths = [], [], []
     for (rname, kind) in g["rules"]:
         emit = EMIT_OF_KIND[kind]
-        impls.append(rule_impl(f"g::rules::r#{rname}", rname, emit))
+        if rname in g.get("custom", {}):
+            impls.append(custom_rule_impl(f"g::rules::r#{rname}", rname, *g["custom"][rname]))
+        else:
+            impls.append(rule_impl(f"g::rules::r#{rname}", rname, emit))
         rpath = f"t_{gid}::rules::r#{rname}<'i>"
         fns.append(dispatch_fn(gid, rname, rpath, emit, kind))
         arms.append(f'        ("{gid}", "{rname}") => Some((t_{gid}_{rname} as CaseFn, None)),')
@@ -142,7 +151,7 @@ def emit_workspace(derived, raw, outdir=WS, nbins=NBINS, prefix="a"):
     bins = [[] for _ in range(nbins)]
     loads = [0] * nbins
     where = {}
-    allg = [("d", g, len(g["rules"]) + 3 + 6 * len(g.get("local_choices", [])) + 3 * len(g.get("local_seqs", []))) for g in derived] + \
+    allg = [("d", g, len(g["rules"]) + 3 + 9 * len(g.get("custom", {}))) for g in derived] + \
            [("r", g, len(g["rules"]) // 3 + 2) for g in raw]
     for kind, g, w in sorted(allg, key=lambda x: -x[2]):
         k = loads.index(min(loads))
@@ -254,8 +263,8 @@ def arity_derived(arities=(2, 3, 12, 13, 14, 15, 16)):
         lines.append('WHITESPACE = _{ " " }')
         g = {"gid": f"ad{n}", "text": "\n".join(lines) + "\n", "designed": "arity", "n": n}
         if n >= 12:
-            g["local_choices"] = [n]
-            g["local_seqs"] = [n]
+            # where Choice12.. / Seq12.. live (library or generated module) is the generator's business
+            g["custom"] = {f"cs_{n}": ("choice", n), f"cr_{n}": ("choice", n), f"sq_{n}": ("seq", n)}
         gs.append(g)
     return gs
 
@@ -341,6 +350,26 @@ t3 = !{ t0 ~ t0 }
 t4 = ${ t1 ~ t3 }
 WHITESPACE = { " " }
 COMMENT = ${ "#" ~ t1? }
+''')
+    add("tv_null", r'''
+file = { SOI ~ line* ~ EOI }
+line = { word ~ NEWLINE }
+word = { ('a'..'z')+ }
+outer = { inner ~ "!"? }
+inner = { wordz }
+wordz = { ('a'..'z')* }
+n0 = { n1? ~ n2 }
+n1 = { "a" }
+n2 = { n3* }
+n3 = { "b" }
+n4 = { &n1 ~ n5 | n5 }
+n5 = { "" }
+n6 = !{ n5 ~ n5 ~ EOI }
+n7 = ${ n5 ~ n2 }
+n8 = { (n5 ~ "c")* ~ n5 }
+n9 = { n5 ~ (n1 | n2) ~ n8? }
+n10 = { (!n1 ~ n5)? ~ n2 }
+n11 = { n5 ~ n5 ~ PUSH(n2) ~ n5 }
 ''')
     return gs
 
